@@ -280,5 +280,39 @@ func Special(a int, b int, s string, xs []int) int {
 `, pre, use)
 	}
 	out = append(out, special{Name: "len-of-named-chan-hoisted", Family: "invalid-hoist", P: chq(false), Q: chq(true)})
+	// 11. exchanged branches whose values never meet in a phi: every instruction has a data-flow twin on
+	// the other side, only the control flow tells the versions apart
+	retx := func(swap bool) string {
+		x, y := fmt.Sprintf("a * %d", k1+1), fmt.Sprintf("b * %d", k2)
+		if swap {
+			x, y = y, x
+		}
+		return specialHeader() + fmt.Sprintf("func Special(a int, b int, s string, xs []int) int {\n\tif a > b {\n\t\treturn %s\n\t}\n\treturn %s\n}\n", x, y)
+	}
+	out = append(out, special{Name: "exchanged-returns", Family: "exchanged-branches", P: retx(false), Q: retx(true)})
+	// the same with three exits chosen by two tests
+	ret3 := func(swap bool) string {
+		x, y := "a + len(s)", "b - len(xs)"
+		if swap {
+			x, y = y, x
+		}
+		return specialHeader() + fmt.Sprintf("func Special(a int, b int, s string, xs []int) int {\n\tif a > %d {\n\t\tif b > a {\n\t\t\treturn %s\n\t\t}\n\t\treturn %s\n\t}\n\treturn a ^ b\n}\n", k1, x, y)
+	}
+	out = append(out, special{Name: "exchanged-inner-returns", Family: "exchanged-branches", P: ret3(false), Q: ret3(true)})
+	// a side effect moved to the other arm: same call, same operands, other branch
+	eff := func(other bool) string {
+		arms := "\tif a > b {\n\t\tnote(a)\n\t}\n"
+		if other {
+			arms = "\tif a > b {\n\t} else {\n\t\tnote(a)\n\t}\n"
+		}
+		return specialHeader() + fmt.Sprintf("var seen int\n\nfunc note(v int) { seen += v + %d }\n\nfunc Special(a int, b int, s string, xs []int) int {\n\tseen = 0\n%s\treturn seen + b\n}\n", k1, arms)
+	}
+	out = append(out, special{Name: "side-effect-in-the-other-arm", Family: "exchanged-branches", P: eff(false), Q: eff(true)})
+	// 12. two counters of one loop with the same start and step but different integer types: the narrow
+	// one wraps after 256 iterations
+	wrapx := func(idx string) string {
+		return specialHeader() + fmt.Sprintf("func Special(a int, b int, s string, xs []int) int {\n\tbuf := make([]int, 300)\n\tfor i := range buf {\n\t\tbuf[i] = i*%d + a\n\t}\n\tt := 0\n\tvar j uint8\n\tfor i := 0; i < 300; i++ {\n\t\tt += buf[%s]\n\t\tj++\n\t}\n\treturn t + int(j)\n}\n", k1+1, idx)
+	}
+	out = append(out, special{Name: "narrow-counter-for-wide-counter", Family: "nested-iv", P: wrapx("j"), Q: wrapx("i")})
 	return out
 }
